@@ -176,6 +176,22 @@ func casesC14(g *Gen) []*Case {
 		addRepeated("several_undefined_inserts", t, nil, opNew("tpl", ".tw", "", false), "NewTemplate with three undefined inserts")
 	}
 	{
+		// one undefined insert, many reserves whose names are equally close to it (a message that suggests "the nearest one"
+		// must suggest the same one every time)
+		t := newTree()
+		var rs strings.Builder
+		for _, n := range []string{"sidebar1", "sidebar2", "sidebar3", "sidebar4", "sidebars", "sidebarx", "xsidebar", "sidbar", "sidebbar", "Sidebar", "side_bar", "sidebar9", "sidebar0"} {
+			rs.WriteString(`<@reserve("` + n + `")>`)
+		}
+		t.files["tpl/layouts/l.tw"] = rs.String()
+		t.files["tpl/p.tw"] = `@use("~l")@insert("sidebar")1@end@insert("sidebar1")2@end`
+		addRepeated("undefined_insert_among_similar_reserves", t, nil, opNew("tpl", ".tw", "", false), "NewTemplate with an undefined insert next to thirteen similar reserves")
+		t2 := newTree()
+		t2.files["tpl/layouts/l.tw"] = rs.String()
+		t2.files["tpl/p.tw"] = `@use("~l")@insert("sidebar5")1@end@insert("sideba")2@end@insert("sidebar1")3@end`
+		addRepeated("undefined_insert_among_similar_reserves", t2, nil, opNew("tpl", ".tw", "", false), "NewTemplate with two undefined inserts next to thirteen similar reserves")
+	}
+	{
 		t := newTree()
 		t.files["tpl/components/c.tw"] = `@slot("header")|@slot("footer")|@slot`
 		t.files["tpl/p.tw"] = `@component("~c")@slot("header")a@end@slot("footer")b@end@slot("footer")c@end@slot("header")d@end@slot("footer")e@end@end`
@@ -416,6 +432,10 @@ func casesC17(g *Gen) []*Case {
 		t.files["tpl/longmsg.tw"] = "PARTIAL-MARK {{ " + strings.Repeat("averylongname", 40) + "_end }}"
 		t.files["tpl/uni.tw"] = "héllo wörld ✓ 日本 {{ who }} — {{ \"é\".upper() }}"
 		t.files["tpl/err.tw"] = "custom error page 50%@each(q in [1])@end{{ who = 5 }}"
+		// the same page under names that end in letters of the extension, or hold a dot
+		for _, n := range []string{"errors/default", "etw", "e.t", "view", "errors/500.t", "w"} {
+			t.files["tpl/"+n+".tw"] = t.files["tpl/err.tw"]
+		}
 		return t
 	}
 	type page struct {
@@ -444,8 +464,11 @@ func casesC17(g *Gen) []*Case {
 		{"loopok", true, "<1><2>[0][1]", "", "", ""},
 	}
 	for _, debug := range []bool{false, true} {
-		for _, ep := range []string{"", "err", "nopage", "errfail"} {
+		for _, ep := range []string{"", "err", "nopage", "errfail", "errors/default", "etw", "e.t", "view", "errors/500.t", "w"} {
 			for _, pre := range []string{"", "debugflip", "evs", "fliprender"} {
+				if len(ep) > 0 && !containsStr([]string{"err", "nopage", "errfail"}, ep) && pre != "" {
+					continue
+				}
 				var ops []string
 				var note []string
 				if pre == "debugflip" {
@@ -497,7 +520,7 @@ func casesC17(g *Gen) []*Case {
 						if strings.Contains(body, "PARTIAL-MARK") {
 							return fmt.Sprintf("Response(%s): the body contains a part of the failed page: %q", p.name, clip(body, 120))
 						}
-						customOK := ep == "err"
+						customOK := ep != "" && ep != "nopage" && ep != "errfail"
 						customConfigured := ep != ""
 						switch {
 						case customConfigured && !debug && customOK:
